@@ -12,11 +12,12 @@ cleanup() { git -C /repo worktree remove --force "$WT" 2>/dev/null; rm -rf "$WT"
 trap cleanup EXIT
 kind=$(python3 -c "import json;print(json.load(open('$D/meta.json'))['demo']['kind'])")
 pkg=$(python3 -c "import json;print(json.load(open('$D/meta.json'))['demo'].get('pkg_dir',''))")
+RACE=$(python3 -c "import json;print('-race' if '-race' in json.load(open('$D/meta.json'))['demo'].get('run','') else '')")
 run_demo() {
   if [ "$kind" = test ]; then
     cp "$D"/demo_test.go "$WT/$pkg/zz_seed_demo_test.go"
     name=$(grep -o 'func Test[A-Za-z0-9_]*' "$D/demo_test.go" | head -1 | sed 's/func //')
-    (cd "$WT" && timeout 300 go test -vet=off -count=1 -run "^${name}\$" "./$pkg" >$LOGD/demo.log 2>&1); rc=$?
+    (cd "$WT" && timeout 300 go test $RACE -vet=off -count=1 -run "^${name}\$" "./$pkg" >$LOGD/demo.log 2>&1); rc=$?
     rm -f "$WT/$pkg/zz_seed_demo_test.go"
   else
     rm -rf "$WT-demo"; mkdir -p "$WT-demo"; cp -r "$D"/demo/* "$WT-demo"/
